@@ -1,11 +1,40 @@
 (* Entry points of the executable model: one named function sx -> sx per modelled component.
    The OCaml driver (ocaml/modelrun.ml) and the in-Coq cross-check both go through dispatch. *)
-From RcProxy Require Import Base.Bytes Base.Sx Gen.Generated Spec.KeySlot Model.Crc16.
+From RcProxy Require Import Base.Bytes Base.Sx Base.Dec Gen.Generated Spec.KeySlot Model.Crc16
+  Model.RespBuf Model.Commands Model.ClientCodec.
 
 Definition e_hash (a : sx) : sx :=
   match a with SB k => sN (Hash k) | _ => bad end.
 Definition e_keyslot (a : sx) : sx :=
   match a with SB k => sN (key_slot k) | _ => bad end.
+
+(* ---- client decoder ---- *)
+Fixpoint insert_by {A} (key : A -> N) (x : A) (l : list A) : list A :=
+  match l with
+  | [] => [x]
+  | y :: r => if (key x <=? key y)%N then x :: l else y :: insert_by key x r
+  end.
+Definition sort_by {A} (key : A -> N) (l : list A) : list A := fold_right (insert_by key) [] l.
+
+Definition sx_cmsg (m : cmsg) : list sx :=
+  [ sN (cm_type m); SL (map SB (cm_keys m));
+    SL (map (fun sf : N * cfrag => SL [sN (fst sf); SB (cf_key (snd sf)); SB (cf_req (snd sf))])
+            (sort_by fst (cm_body m))) ].
+
+Definition sx_dec_out (d : dec_out) : sx :=
+  match d with
+  | DWait => SL [SB (bs "wait")]
+  | DClose => SL [SB (bs "invalid")]
+  | DCrash => SL [SB (bs "nil")]
+  | DHang => SL [SB (bs "hang")]
+  | DOk m n => SL (SB (bs "ok") :: snat n :: sx_cmsg m)
+  end.
+
+Definition e_cdecode (a : sx) : sx :=
+  match a with
+  | SL [SN limit; SB b] => sx_dec_out (decode limit b)
+  | _ => bad
+  end.
 
 (* oracle: spec evaluated on the implementation's own output *)
 Definition ok : sx := SN 1%Z.
@@ -21,7 +50,8 @@ Definition o_c05 (a : sx) : sx :=
 Definition entries : list (bytes * (sx -> sx)) :=
   [ (bs "hash", e_hash);
     (bs "keyslot", e_keyslot);
-    (bs "o_c05", o_c05) ].
+    (bs "o_c05", o_c05);
+    (bs "cdecode", e_cdecode) ].
 
 Definition dispatch (name : bytes) (a : sx) : sx :=
   match assoc_b name entries with
